@@ -171,7 +171,7 @@ def collect_defaults():
 
 
 # scalar settings an echo may copy (none of them is mirrored in an op's "meta")
-ECHO_KEYS = {"qrange", "qconst", "rdelta", "a", "c", "sigma", "gaussian_cut", "deltar", "cal_type", "onlypositive",
+ECHO_KEYS = {"N", "r_cut", "qrange", "qconst", "rdelta", "a", "c", "sigma", "gaussian_cut", "deltar", "cal_type", "onlypositive",
              "coarse_graining", "mean_norm", "eigvals", "transform_matrix", "average_complex", "shiftpotential"}
 
 
@@ -215,6 +215,7 @@ class World(WorldBase):
             "p_reuse": rng.choice([0.3, 0.6, 0.9]),
             "clients": rng.randint(1, 3),
             "p_echo": rng.choice([0.0, 0.15, 0.3]),
+            "huge": rng.random() < float(os.environ.get("VERIF_C18_HUGE", "0.01")),
             "faults": [],
         }
         if batch == "fault":
@@ -238,6 +239,8 @@ class World(WorldBase):
         self.history = {}     # op id -> op (acknowledged, defining ops only are needed for closures)
         self.last_call = {}   # adapter id -> canonical digest of its last result (repeat-call probe)
         self.recent = []      # the last few acknowledged call ops (for echoes)
+        self.readers_of = {}  # path -> recent ops that read it
+        self.reissue = []     # ops to make again after the file they read was rewritten
         self.server = None
         self.defaults = []
         if not replica:
@@ -327,8 +330,16 @@ class World(WorldBase):
     def gen(self, rng):
         sw = self.swarm
         nsn = sum(1 for e in self.pool.values() if e.kind == "snaps" and e.tag.get("base"))
-        if nsn == 0 or (nsn < 3 and rng.random() < 0.08):
+        if nsn == 0 or (nsn < 3 and rng.random() < (0.25 if sw.get("huge") else 0.08)):
             return self.stamp(self.ad.gen_mk_snaps(self, rng), rng)
+        while self.reissue:
+            old = self.reissue.pop(0)
+            if rng.random() < 0.7 and all(p in self.files for p in old.get("reads", {})) \
+                    and all(n in self.pool for n in self.refs(old.get("args", {}))):
+                op = copy.deepcopy({k: v for k, v in old.items() if k not in ("fault", "id", "client")})
+                op["reads"] = {p: self.files[p]["src"] for p in old["reads"]}
+                self.ctx.probe("reissued_after_rewrite")
+                return self.stamp(op, rng)
         for _try in range(60):
             echo = None
             if self.recent and rng.random() < sw.get("p_echo", 0.0):
@@ -339,6 +350,7 @@ class World(WorldBase):
                 a = self.ad.REG[echo["ad"]]
             else:
                 a = self.ad.choose(self, rng)
+            self.cur_adapter = a.id
             op = a.gen(self, rng)
             if op is not None and echo is not None:
                 for _again in range(3):
@@ -544,7 +556,17 @@ class World(WorldBase):
             if os.path.exists(p):
                 m = dict(meta)
                 m["src"] = oid
+                old = self.files.get(p)
                 self.files[p] = m
+                if old is not None and not self.replica:
+                    # the file was rewritten: the calls that read the old version are worth making
+                    # again, unchanged, on the new one (read after rewrite)
+                    for r in self.readers_of.pop(p, []):
+                        if "obj" not in r and self.compatible(old, m):
+                            self.reissue.append(r)
+        if not self.replica:
+            for p in op.get("reads", {}):
+                self.readers_of[p] = (self.readers_of.get(p, []) + [op])[-3:]
         if delta is not None:
             for p in delta:
                 if p in self.files and self.files[p]["src"] != oid:
@@ -561,6 +583,13 @@ class World(WorldBase):
                 self.add(f"H{oid}", "arr", held, {"role": "held", "result": True}, depth, oid)
         if "obj" in op and a.sets_prereq and op["obj"] in self.pool:
             self.pool[op["obj"]].tag["prereq_done"] = oid
+
+    @staticmethod
+    def compatible(old, new):
+        keys = ("kind", "nlkind", "ndim", "nextra", "K", "coord")
+        same_n = True
+        return all(old.get(k) == new.get(k) for k in keys) and old.get("frames", 1) <= new.get("frames", 1) \
+            and old.get("N") == new.get("N") and same_n
 
     def taint(self, name):
         for n in [n for n in self.pool if n == name or n.startswith(name + ".")]:
